@@ -48,7 +48,7 @@ PROPERTY = "C18"
 LEVEL = "exploration"
 NEEDS_RUST = True
 RULE = (
-    "Hypothesis scenarios (quick 16 shards x 120, thorough 16 x 2500; even shards Rust extensions, odd shards pure-Python "
+    "Hypothesis scenarios (quick 16 shards x 100, thorough 16 x 2500; even shards Rust extensions, odd shards pure-Python "
     "twins): 5-9 path components drawn from a flavour pool (plain incl. the a/a.b/a-/a0/ab sort-collision family and a "
     "File/file case pair; special = spaces, quotes, newline, tab, backslash, glob and shell characters, control bytes, "
     "UTF-8 incl. NFD; non-UTF-8 bytes), 2-3 of them also used as directory names (so file/directory collisions at one "
@@ -1062,6 +1062,11 @@ class Runner:
 
     def step(self, op):
         op = tuple(op)
+        if M.df_conflicts(self.I):
+            # an earlier operation (already reported) left an index that holds a path both as file and as directory;
+            # nothing that follows can be judged, and the next operation must not be blamed for it
+            self.labels.add("stopped:invalid-index")
+            raise _Stop()
         if not self.in_domain(op):
             self.labels.add("op-out-of-domain-skipped")
             return
@@ -1456,6 +1461,6 @@ def run(ctx):
     ctx.note("git_version", cgit.version())
     st = os.stat(ctx.scratch.path)
     ctx.note("scratch_fs_has_subsecond_timestamps", bool(st.st_mtime_ns % 1_000_000_000))
-    per = ctx.scale(120, 2500)
+    per = ctx.scale(100, 2500)
     maxops = ctx.scale(12, 16)
     ctx.parallel(_part, [(per, maxops)] * 16)
